@@ -47,6 +47,10 @@ def work(tasks, idx):
                          restart_count=rng.getrandbits(32), safe=rng.choice([0, 1, 2, 255]), firmware_version=rng.bytes_(8),
                          attested_name=name, attested_qualified_name=rng.bytes_(rng.choice(SIZES)))
                 b = T.encode_cert_info(**f)
+                if rng.random() < 0.15 and len(b) - 2 < 65536:
+                    # a magic whose leading half happens to equal the remaining length (what a TPM2B wrapper would carry)
+                    f["magic"] = ((len(b) - 2) << 16) | rng.getrandbits(16)
+                    b = T.encode_cert_info(**f)
                 # the layout of the parseCertInfo_encode theorem is the simulator's (independent) layout
                 tie.check({"op": "encode_cert_info", "magic": f["magic"].to_bytes(4, "big").hex(), "type": st.to_bytes(2, "big").hex(),
                            "qs": f["qualified_signer"].hex(), "extra": f["extra_data"].hex(), "clock": f["clock"].hex(),
@@ -80,6 +84,11 @@ def work(tasks, idx):
                 if kind == "rsa":
                     mod = rng.bytes_(rng.choice([0, 1, 128, 256, 384, 512]))
                     kb, ex = rng.getrandbits(16), rng.choice([0, 65537, rng.getrandbits(32)])
+                    if rng.random() < 0.5:
+                        # modulus sizes around keyBits/8, with and without a leading zero / high bit
+                        kb = rng.choice([0, 8, 16, 512, 1024, 2048, 3072, 4096])
+                        n = max(0, kb // 8 + rng.choice([-1, 0, 1]))
+                        mod = (bytes([rng.choice([0x00, 0x00, 0x80, 0xff, rng.getrandbits(8)])]) + rng.bytes_(n - 1)) if n else b""
                     b = T.encode_pub_area("rsa", name_alg=name_alg, attributes=attrs, auth_policy=pol, symmetric=sym, scheme=sch,
                                           key_bits=kb, exponent=ex, modulus=mod)
                     params = {"kind": "rsa", "symmetric": "TPM_ALG_" + ALG[sym], "scheme": "TPM_ALG_" + ALG[sch],
@@ -91,6 +100,10 @@ def work(tasks, idx):
                 else:
                     crv, kdf = rng.choice(list(CURVE)), rng.choice(list(ALG))
                     x, y = rng.bytes_(rng.choice([0, 32, 48, 66])), rng.bytes_(rng.choice([0, 32, 48, 66]))
+                    if rng.random() < 0.5:
+                        # small structures of every total length (incl. those whose length resembles their own first field)
+                        pol = rng.bytes_(rng.choice([0, 0, 1, 4, 15]))
+                        x, y = rng.bytes_(rng.randrange(0, 17)), rng.bytes_(rng.randrange(0, 17))
                     b = T.encode_pub_area("ecc", name_alg=name_alg, attributes=attrs, auth_policy=pol, symmetric=sym, scheme=sch,
                                           curve_id=crv, kdf=kdf, x=x, y=y)
                     params = {"kind": "ecc", "symmetric": "TPM_ALG_" + ALG[sym], "scheme": "TPM_ALG_" + ALG[sch],
